@@ -270,7 +270,7 @@ fn scenarios(rng: &mut Rng, n: usize) -> Vec<Scenario> {
 }
 
 pub fn run(ctx: Ctx) -> Report {
-    let n_scen = ctx.tier.pick(32, 480);
+    let n_scen = ctx.tier.pick(320, 2400);
     let mut total = run::run_sharded("C11", ctx.shards, move |shard, nshards, rep| {
         let mut rng0 = Rng::new(ctx.seed ^ 0xC11);
         let scen = scenarios(&mut rng0, n_scen);
